@@ -75,8 +75,8 @@ fn gen(ch: &mut Ch, thorough: bool) -> Option<Case> {
     let entry = *ch.of(&Entry::BOTH);
     let raw = ch.flag();
     let stacked = ch.flag();
-    let extra = ch.pick(5);
-    if extra != 0 && (raw || stacked || flavour != (if extra == 4 { Flavour::GenericFm } else { Flavour::Fm }) || body.n == 0 || entry == Entry::Derive && !thorough) {
+    let extra = ch.pick(6);
+    if extra != 0 && (raw || stacked || flavour != (if extra >= 4 { Flavour::GenericFm } else { Flavour::Fm }) || body.n == 0 || entry == Entry::Derive && !thorough) {
         return None;
     }
     if !thorough && extra != 0 && !(body.n == 2) {
@@ -155,9 +155,9 @@ fn build_inner(c: &Case, tier: &str) -> XCase {
     };
     let ty = |_: usize, _: usize| fty.to_string();
     let noattrs = |_: usize, _: usize| Vec::new();
-    let mut item = sh.item(match c.flavour { Flavour::GenericFm if c.extra == 4 => "<'a, T>", Flavour::GenericFm => "<T>", Flavour::AssocFm => "<T: HasA>", _ => "" }, &ty, &noattrs);
+    let mut item = sh.item(match c.flavour { Flavour::GenericFm if c.extra == 4 => "<'a, T>", Flavour::GenericFm if c.extra == 5 => "<const K: usize, T>", Flavour::GenericFm => "<T>", Flavour::AssocFm => "<T: HasA>", _ => "" }, &ty, &noattrs);
     // an additional last field that takes part in every operator without logging (Tag implements all forms)
-    let tag_ty = match c.extra { 3 => Some("::dxrt::probe::Tag<Self>"), 4 => Some("::dxrt::probe::Tag<&'a T>"), _ => None };
+    let tag_ty = match c.extra { 3 => Some("::dxrt::probe::Tag<Self>"), 4 => Some("::dxrt::probe::Tag<&'a T>"), 5 => Some("::dxrt::probe::Tag<[u8; K]>"), _ => None };
     if let (Some(t), Body::Struct(f)) = (tag_ty, &mut item.body) {
         match f {
             FieldsDef::Tuple(v) => v.push(FieldDef::tuple(t)),
@@ -181,7 +181,7 @@ fn build_inner(c: &Case, tier: &str) -> XCase {
         Entry::Attr => lists,
         Entry::Derive => format!("#[derive(Ex)]\n{lists}"),
     };
-    let selfty = if c.extra == 4 { "X<'static, Fm>" } else if matches!(c.flavour, Flavour::GenericFm | Flavour::AssocFm) { "X<Fm>" } else { "X" };
+    let selfty = if c.extra == 4 { "X<'static, Fm>" } else if c.extra == 5 { "X<3, Fm>" } else if matches!(c.flavour, Flavour::GenericFm | Flavour::AssocFm) { "X<Fm>" } else { "X" };
     let is_int = c.flavour == Flavour::WrapI8;
     let mut s = String::new();
     s.push_str("use derive_ex::{derive_ex, Ex};\nuse dxrt::{Fm, take_log, take_log_str};\n");
@@ -280,9 +280,9 @@ fn build_inner(c: &Case, tier: &str) -> XCase {
     atoms.insert(format!("body={}", sh.describe()));
     atoms.insert(format!("raw={}", c.raw));
     atoms.insert(format!("stacked={}", c.stacked));
-    atoms.insert(format!("extra={}", ["none", "macro_rules-generated", "where-nested-Self", "last-field-Tag<Self>", "lifetime-'a-and-Tag<&'a T>"][c.extra]));
+    atoms.insert(format!("extra={}", ["none", "macro_rules-generated", "where-nested-Self", "last-field-Tag<Self>", "lifetime-'a-and-Tag<&'a T>", "const-parameter-declared-before-the-type-parameter"][c.extra]));
     XCase {
-        text: format!("{} {}{}{} {}", c.entry.name(), if c.stacked { "stacked " } else { "" }, ["", "macro_rules-generated ", "", "", ""][c.extra], tr, item.print()),
+        text: format!("{} {}{}{} {}", c.entry.name(), if c.stacked { "stacked " } else { "" }, ["", "macro_rules-generated ", "", "", "", ""][c.extra], tr, item.print()),
         code: s,
         expected: exp,
         atoms,
